@@ -236,6 +236,16 @@ async def one_case(enc, mac, comp, direction, kind, k, sizes, taglen, paused=Fal
             sent.extend(b'Z')
         delivered = bytes(got[rside])
         exc = lost[rside]
+        # 1-in-256 coincidence with the PROBE packets: the byte(s) removed from the last captured packet equal the
+        # first byte(s) of the probe that follows, so that packet is intact on the wire after all (the case built
+        # above only knew the captured packets)
+        coincidence = False
+        for idx, (nm, dat) in enumerate(items):
+            if nm.startswith('Trunc ') and dat is not None:
+                orig_i = int(nm.split()[1]) - S0
+                rest = b''.join(bytes(d) for _, d in items[idx:] if d is not None)
+                if orig_i < len(pk) and len(rest) > len(dat) and rest.startswith(pk[orig_i]) and bytes(dat) != pk[orig_i]:
+                    coincidence = True
         if isinstance(exc, str):         # 'none': no connection_lost at the receiving owner
             status = 0 if (probe_ok and delivered == bytes(sent)) else 1
         elif exc is None:
@@ -247,7 +257,8 @@ async def one_case(enc, mac, comp, direction, kind, k, sizes, taglen, paused=Fal
         else:
             status = 5
         return dict(contents=contents, items=[i[0] for i in items], delivered=delivered, status=status,
-                    sent=bytes(sent), exc=repr(exc), npk=n, k=k, sender_lost=lost[fside], session_lost=sess_lost[rside])
+                    sent=bytes(sent), exc=repr(exc), npk=n, k=k, sender_lost=lost[fside], session_lost=sess_lost[rside],
+                    coincidence=coincidence)
     finally:
         wire.auto = True
         try:
@@ -319,6 +330,9 @@ def run(ctx):
                     ctx.broke('harness:session', f'{enc} {mac} {comp} {direction} {kind}: {e!r}')
                     continue
                 seen_kinds.add(kind)
+                if r.get('coincidence'):
+                    ctx.count('truncation_coincidence_with_probe_skipped')
+                    continue
                 ctx.note_case((enc, mac, comp, direction, kind, r['k'], tuple(sizes)), nontrivial=(kind != 'none'))
                 ctx.count('kind.' + kind)
                 ctx.count('status.%d' % r['status'])
